@@ -339,8 +339,8 @@ def split_trace(path, parts):
         cur.append(l)
     if cur:
         groups.append(cur)
-    # a trace file is read by TLC in one piece: keep every part below ~40k lines and ~25 MB
-    parts = max(parts, (len(lines) + 39999) // 40000, (sum(len(l) for l in lines) + 25_000_000 - 1) // 25_000_000)
+    # a trace file is read by TLC in one piece: keep every part below ~40k lines and ~12 MB
+    parts = max(parts, (len(lines) + 39999) // 40000, (sum(len(l) for l in lines) + 12_000_000 - 1) // 12_000_000)
     parts = max(1, min(parts, len(groups)))
     files = []
     for i in range(parts):
